@@ -59,6 +59,9 @@ def obligations(tier, seed=0):
         # endpoints far longer than the precision; far-apart exponents (perturbation shortcut of mpf_add, finding F1)
         add('iv_addsub', fn=fn, prec=2, s=[P(12, 101), P(12, 101)], t=[P(104, 0), P(104, 0)])
         add('iv_addsub', fn=fn, prec=2, s=[N(12, 101), P(12, 101)], t=[N(104, 0), P(104, 0)])
+        # mirrored: the long far operand is the RIGHT one and the near operand is itself ~100 bits long
+        add('iv_addsub', fn=fn, prec=10, s=[P(104, 0), P(104, 0)], t=[P(150, 101), P(150, 101)])
+        add('iv_addsub', fn=fn, prec=10, s=[N(104, 0), P(104, 0)], t=[N(150, 101), P(150, 101)])
         add('iv_addsub', fn=fn, prec=3, s=S[2], t=T[0], entry='op')
         add('iv_addsub', fn=fn, prec=3, s=S[0], t=T[2], entry='rop')
     for fn in ('mpi_neg', 'mpi_pos', 'mpi_abs'):
